@@ -16,6 +16,9 @@ probe 180, shutdown 60, term 60, staleRunLock 60; for `sb`: booting 100, probe 3
   uk <S> <b> <starting> <running> <givenup> <u>                  onUnkillable after givenup was set
      → `<S><b> d=<n>`
   sc <id:type:S:b:busy,…> <type>                                 StartContainer: `w<id>` allowed set joined by '|', `w0` = refused
+  cr <o|q|r|e|x|t …>   (one letter per step, no separator)         Pool.Create calls that run to completion with the cloud
+     answering ok / quota error / rate-limit error / other error; x = quotaErrorTTL passes, t = the rate-limit hold-off passes
+     → per step `c<len(creating)>u<Unallocated>q<AtQuota>w<workers>a<Create returned>` joined by ','
   o1 <st<u>|pa<u/…|->|sd<u>,…>                                 runner objects of one Idle run-mode worker: StartContainer (the
      `crunch-run --detach` stays outstanding), probe applied with the listed uuids, completion of the outstanding start
      → `<S> sg=<…> rg=<…> ex=<…>`, or `panic close of closed channel` (finding F15a)
@@ -141,6 +144,18 @@ def stepW (f : List String) : Option String :=
       | _ => none)
     let c := Pool.startCandidates ⟨workers, []⟩ (← ty.toNat?)
     pure (if c.isEmpty then "w0" else "|".intercalate ((sortNat c).map (fun i => s!"w{i}")))
+  | ["cr", script] => do
+    let step (acc : CPool × List String) (ch : Char) : Option (CPool × List String) :=
+      let p := acc.1
+      let r : Option (CPool × Bool) := match ch with
+        | 'o' => some (p.create .ok) | 'q' => some (p.create .quota) | 'r' => some (p.create .rateLimit)
+        | 'e' => some (p.create .other)
+        | 'x' => some ({ p with atQuota := false }, false)
+        | 't' => some ({ p with throttled := false }, false)
+        | _ => none
+      r.map (fun (p', a) => (p', acc.2 ++ [s!"c{p'.creating}u{p'.unallocated}q{b2s p'.atQuota}w{p'.booting}a{b2s a}"]))
+    let r ← script.toList.foldlM step ((⟨0, 0, false, false⟩ : CPool), [])
+    if r.2.isEmpty then none else pure (",".intercalate r.2)
   | ["o1", ops] => do
     let ops ← (ops.splitOn ",").mapM (fun o =>
       if o.startsWith "st" then (o.drop 2).toString.toNat?.map RWOp.accept
